@@ -805,8 +805,15 @@ func c07EndToEnd(rec *kit.Rec, r *rig, corpus []c07Stmt) {
 			e2e = append(e2e, st)
 		}
 	}
+	// installed and removed under the backend's lock, which every fake Execute takes before reading the hook
+	r.B.mu.Lock()
 	r.B.Respond = c07Echo
-	defer func() { r.B.Respond = nil }()
+	r.B.mu.Unlock()
+	defer func() {
+		r.B.mu.Lock()
+		r.B.Respond = nil
+		r.B.mu.Unlock()
+	}()
 	seed := kit.Seed()
 
 	// baseline of the end-to-end view: one session, sequentially
